@@ -29,6 +29,9 @@ def applicable(name, sp):
         return any(m[1] for m in mems)
     if name in ("hexadecimal", "hexadecimal-0X", "leading-zeros"):
         return any(o[0] in ("imm", "rel") and o[1] >= 0 for o in ops) or any(m[6] for m in mems)
+    if name == "decimal-leading-zero":
+        has = lambda v: "8" in str(abs(v)) or "9" in str(abs(v))
+        return any(o[0] in ("imm", "rel") and has(o[1]) for o in ops) or any(m[6] and has(m[6]) for m in mems)
     if name.startswith("minus-one"):
         return any(o[0] == "imm" and o[1] < 0 and c == "i32" for o, c in zip(ops, sp["shape"])) or any(m[6] < 0 for m in mems)
     if name in ("memory-term-order", "scale-before-index", "displacement-outside-brackets"):
